@@ -534,10 +534,22 @@ func loModule(L *LState) int {
 	return 1
 }
 
-var loopdetection = &LUserData{}
+// loopSentinel returns the userdata that require stores in package.loaded[name] while the
+// loader of name runs. A loader can reach it (and give it a metatable), so it belongs to the
+// state: it is created on first use and kept in the registry, shared by the state's coroutines.
+func loopSentinel(L *LState) *LUserData {
+	reg := L.Get(RegistryIndex).(*LTable)
+	if ud, ok := reg.RawGetString("_LOOPDETECTION").(*LUserData); ok {
+		return ud
+	}
+	ud := L.NewUserData()
+	reg.RawSetString("_LOOPDETECTION", ud)
+	return ud
+}
 
 func loRequire(L *LState) int {
 	name := L.CheckString(1)
+	loopdetection := loopSentinel(L)
 	loaded := L.GetField(L.Get(RegistryIndex), "_LOADED")
 	lv := L.GetField(loaded, name)
 	if LVAsBool(lv) {
